@@ -195,13 +195,14 @@ def search(ctx):
         out.append("{[2 %s]}" % s)
     reqs = ["C19.check\tsb\t" + t for t in out]
     # every kind of use site with a small differing structure, alone and after an agreeing one
-    G = ["sb", "rwsb", "sbc", "sbtd", "sbreg", "sbarr", "rwsbarr", "sbarr2", "sbarru", "sbbl", "sbtdarr", "sbarrtd", "sbarrtd2"]
+    G = ["sb", "rwsb", "sbc", "sbtd", "sbreg", "sbarr", "rwsbarr", "sbarr2", "sbarru", "sbbl", "sbtdarr", "sbarrtd", "sbarrtd2",
+         "sbmulti", "sbns", "sbst", "sbex"]
     F = ["bload", "bload2", "rwbload", "rwbload2", "rwbstore", "rwbstoret", "baload", "rwbaload", "rwbastore", "rwbastoret"]
-    W = ["m", "u", "t", "me", "p", "a"]
+    W = ["m", "u", "t", "me", "p", "a", "pf", "ns", "lp", "tt", "two", "tm", "mt", "hb"]
     sites = G + [f + "." + w for f in F for w in W]
-    sites += [f + "." + w for f in ("bload", "rwbload", "baload", "rwbaload") for w in ("gi", "da", "ex")]
+    sites += [f + "." + w for f in ("bload", "rwbload", "baload", "rwbaload") for w in ("gi", "da", "ex", "pd", "sl")]
     sites += ["bload2.ex", "rwbload2.ex"]
-    for tgt in ("vk:np:0", "msl:pipe:0", "dx:np:0"):
+    for tgt in ("vk:np:0", "msl:pipe:0", "dx:np:0", "vk:npo:0", "dx:pname:0"):
         for s in sites:
             for t in ("{f f2}", "{h h2 f}", "{{f2 f} f}"):
                 reqs.append("C19.prog\t%s\t%s\t%s@0" % (tgt, t, s))
@@ -350,7 +351,7 @@ SPEC = {
     "id": "C19",
     "custom": custom,
     "gens": ["LayoutTables", "LayoutSites", "LayoutPurity"],
-    "lean_modules": ["RsslVerif.Thm.C19", "RsslVerif.Lemmas.LayoutContext"],
+    "lean_modules": ["RsslVerif.Thm.C19", "RsslVerif.Lemmas.LayoutContext", "RsslVerif.Lemmas.LayoutIgnored"],
     "theorems": [T + n for n in [
         "tables_pinned", "checked_sites", "get_matches_spec", "check_sound_agree", "check_sound",
         "reported_sizes_true", "rejected_differs", "check_complete", "check_total", "check_never_panics",
@@ -359,6 +360,7 @@ SPEC = {
         "collection_sites_covered", "diagnostic_pinned", "property_uses_collected_partial", "check_layout_sound_partial",
         "check_layout_reports_true_sizes",
         "layout_functions_are_pure", "layout_is_context_free", "check_layout_order_free",
+        "unmatched_sites_ignored",
         "check_sound_full", "reported_sizes_true_full", "check_never_panics_full", "no_layout_no_verdict",
         "no_layout_is_unknown", "check_complete_partial",
         "complete_fails_beyond_plain",
@@ -387,6 +389,15 @@ SPEC = {
                   "was laid out or checked before it and acceptance does not depend on the order of the declarations "
                   "(layout_is_context_free, check_layout_order_free); the correspondence run exercises exactly that on the real "
                   "compiler with type tables that SHARE struct / enum / typedef definitions between several checked types. "
+                  "Globals and functions the collection loops pass over (other resource kinds, variables, non-templated "
+                  "intrinsics, user functions) provably never influence what is collected or the verdict "
+                  "(unmatched_sites_ignored); the run places such decoys (float3 everywhere) around the checked sites. Since wave 11 "
+                  "the generated programs also vary compile()'s other options (source_info, defines, pipeline_name among two "
+                  "pipelines, support_buffer_address), the declaration forms (several declarators, namespaces reopened, static / "
+                  "extern / local buffers, prototypes with default arguments, bodies after main, struct-template methods, method "
+                  "templates, one template instantiated twice, buffers inside structs) and the spelling of members (typedef and "
+                  "const-typedef member types, several declarators per declaration, two bases, typedef chains and constant "
+                  "expressions for array dimensions), and reach 14 checked types / 24 sites / 24 members per struct. "
                   "The model is compared with the real compile() on "
                   "generated whole programs and the property's own oracle (independent Rust calculators, themselves compared with "
                   "the Lean reference on every run) judges the real verdicts and diagnostics.",
@@ -415,6 +426,21 @@ SPEC = {
             "otherwise in quick, exhaustive in thorough); S3 random tables of 3-6 entries built from earlier entries, 2-5 "
             "sites in random order (1200 quick / 40000 thorough); S4 one struct under four names (itself, typedef, typedef of "
             "const, typedef of that) at two of 15 site kinds incl. first use in a function nobody calls. "
+            "Wave 11 (declaration forms and options): modes npo (no pipeline mode + source_info + a user define + buffer "
+            "addresses supported only if the program has one) and pname (two pipelines in the file, pipeline_name picks one); "
+            "global kinds sbmulti (two declarators in one declaration), sbns (in a namespace), sbst (static), sbex (extern), "
+            "sblocal (a local variable: not a site), cbmem (buffer inside a struct held by a ConstantBuffer: class site-sbmem), "
+            "sbtwo (ONE struct template instantiated with float and with the type, both instances element types), decoy "
+            "(Buffer / RWBuffer / Texture2D / RWTexture2D / sampler / raw buffers / static, uniform and groupshared variables "
+            "of float3, used through non-templated intrinsics: never looked at); wrappers pd (default argument on a prototype "
+            "that is never defined), pf (prototype before main, body after it: checked after main), ns (function in a "
+            "namespace), lp (inside for / if), tt (template instantiated through another template), two (one function "
+            "template instantiated twice), tm (method of a struct template, instantiated by naming W<S>), mt (method "
+            "template), sl (static local), hb (raw buffer that is a member of a global struct); spelling variants of a "
+            "struct (style != 0): several declarators per member declaration, member types through typedefs and typedefs of "
+            "the const-qualified type (a Modifier layer below the element), attributes, stray semicolons, two base structs, "
+            "array types through typedef chains, dimensions as named constants / constant expressions; stream P6: 8-24 sites "
+            "over 3-6 types, structs of 10-24 members. "
             "non-trivial = some type has at least two members",
     "trusted_base": [
         "Lean 4.33 kernel; axioms propext / Classical.choice / Quot.sound only (audited by #print axioms)",
@@ -430,7 +456,8 @@ SPEC = {
         "diagnostics) - re-run on /repo's working tree every time; any other text is a broken obligation",
         "Model/Layout.lean + Model/LayoutCollect.lean: interpreter of the op programs, the recursion skeletons and the two "
         "collection loops; Driver/C19.lean::moduleOf: how the type checker turns the generated programs into globals and "
-        "intrinsic instantiations (order, type ids; a typedef is the same type id, a const-qualified type has its own, one "
+        "intrinsic instantiations (order in three phases: functions before main, main's statements and what they "
+        "instantiate, bodies after main; one or several globals per declaration; type ids; a typedef is the same type id, a const-qualified type has its own, one "
         "for all its spellings; a reference $k is replaced by the structure it names) - all tied to the code by the "
         "correspondence run only",
         "Spec/Layout.lean, Spec/LayoutFull.lean and the Rust reference calculators in harness/src/c19.rs: our reading of HLSL "
@@ -455,5 +482,16 @@ SPEC = {
         "Metal has no double; the Metal reference treats double like any other scalar (size = alignment = 8); programs "
         "whose compilation fails after an accepting layout check are not judged (the property's premise is false); the "
         "MetalBytecode target needs the Metal compiler and is not exercised",
+        "covered by the correspondence run and its oracle only (front-end behaviour, not in a theorem): how the type checker "
+        "turns the declaration forms of wave 11 into the registries the Lean module is built from - two declarators = two "
+        "globals, a static global has no const modifier, a local buffer variable is no global, a body after main is checked "
+        "after main, a struct template's methods are instantiated where W<S> is first named, two instances of one struct "
+        "template are two struct types with two type ids (Driver/C19.lean::moduleOf); member declarations with several "
+        "declarators, base lists, typedef chains and constant-expression dimensions give the members the request names; a "
+        "member whose type is a typedef of a const-qualified type carries a Modifier layer that get_type_layout / "
+        "offsets_match look through (the two arms are pinned by the translator; the driver erases the layer)",
+        "compile()'s other options (source_info, defines, pipeline_name, support_buffer_address) do not occur in the pinned "
+        "guard of the validation statement (diagnostic_pinned: the guard is exactly args.validate_layout_consistency); that "
+        "they do not influence the front end's registries is exercised by the modes npo / pname only",
     ],
 }
